@@ -97,12 +97,14 @@ func isDigit(c byte) bool { return c >= '0' && c <= '9' }
 func isHex(c byte) bool {
 	return isDigit(c) || c >= 'a' && c <= 'f' || c >= 'A' && c <= 'F'
 }
-func isWS(c byte) bool         { return c == ' ' || c == '\t' || c == '\n' }
-func isIdentStart(c byte) bool { return c >= 'a' && c <= 'z' || c >= 'A' && c <= 'Z' || c == '_' || c >= 0x80 }
-func isIdentChar(c byte) bool  { return isIdentStart(c) || isDigit(c) || c == '-' }
+func isWS(c byte) bool { return c == ' ' || c == '\t' || c == '\n' }
+func isIdentStart(c byte) bool {
+	return c >= 'a' && c <= 'z' || c >= 'A' && c <= 'Z' || c == '_' || c >= 0x80
+}
+func isIdentChar(c byte) bool { return isIdentStart(c) || isDigit(c) || c == '-' }
 
 func (l *lexer) validEscape(i int) bool {
-	return !l.eof(i) && l.at(i) == '\\' && !(l.eof(i+1)) && l.at(i+1) != '\n'
+	return !l.eof(i) && l.at(i) == '\\' && !(l.eof(i + 1)) && l.at(i+1) != '\n'
 }
 
 // validEscapeEOF: css-syntax treats "\" EOF as a valid escape only inside some consumers; for
